@@ -48,6 +48,7 @@ type Case struct {
 	Storage string // vk | memory
 	Idle    int    // seconds
 	Abs     bool   // AbsoluteTimeout 1h configured
+	Conn    bool   `json:",omitempty"` // all requests arrive on one keep-alive connection (one server-side RequestCtx)
 	Ops     []ReqOp
 }
 
@@ -174,6 +175,11 @@ func check(c Case) vk.Verdict {
 			return nil
 		})
 	}
+	var ka *vk.KeepAlive
+	if c.Conn {
+		ka = vk.NewKeepAlive(app)
+		defer ka.Close()
+	}
 	model := map[string]*rec{}
 	cred := map[int]string{}
 	var stale []string
@@ -190,7 +196,7 @@ func check(c Case) vk.Verdict {
 		}
 		return r
 	}
-	v := vk.Verdict{Classes: []string{"api:" + c.API, "source:" + c.Source, "storage:" + c.Storage}}
+	v := vk.Verdict{Classes: []string{"api:" + c.API, "source:" + c.Source, "storage:" + c.Storage, fmt.Sprintf("keepalive:%v", c.Conn)}}
 	staleUsed, forgedUsed, midSaveThenRotate := false, false, false
 	for i, op := range c.Ops {
 		switch op.Kind {
@@ -202,7 +208,7 @@ func check(c Case) vk.Verdict {
 			if op.Present == "stale" && len(stale) > 0 {
 				id = stale[op.Pick%len(stale)]
 			} else if op.Present == "forged" {
-				id = fmt.Sprintf("forged-%d", i)
+				id = fmt.Sprintf("fgd-%d", i)
 			}
 			if id == "" {
 				continue
@@ -256,7 +262,7 @@ func check(c Case) vk.Verdict {
 		case "own":
 			present = cred[op.Client]
 		case "forged":
-			present = fmt.Sprintf("forged-%d", i)
+			present = fmt.Sprintf("fgd-%d", i)
 			forgedUsed = true
 		case "stale":
 			if len(stale) > 0 {
@@ -281,13 +287,26 @@ func check(c Case) vk.Verdict {
 			}
 		}
 		ctrBefore := ctr
-		resp := vk.Do(app, "GET", uri, hdr...)
+		var resp *fasthttp.Response
+		if ka != nil {
+			var hs [][2]string
+			for j := 0; j+1 < len(hdr); j += 2 {
+				hs = append(hs, [2]string{hdr[j], hdr[j+1]})
+			}
+			r, err := ka.Do(vk.Req("GET", uri, hs, nil), false)
+			if err != nil {
+				return vk.Failf("op %d: keep-alive connection: %v", i, err)
+			}
+			resp = r
+		} else {
+			resp = &vk.Do(app, "GET", uri, hdr...).Response
+		}
 		ctx := fmt.Sprintf("op %d (client %d presents %q via %s, script %+v, save=%v, api=%s, storage=%s, t=+%ds)", i, op.Client, present, c.Source, op.Script, op.Save, c.API, c.Storage, now()-3_000_000)
 		if handlerErr != "" {
 			return vk.Failf("%s: %s", ctx, handlerErr)
 		}
-		if resp.Response.StatusCode() != 200 {
-			return vk.Failf("%s: status %d", ctx, resp.Response.StatusCode())
+		if resp.StatusCode() != 200 {
+			return vk.Failf("%s: status %d", ctx, resp.StatusCode())
 		}
 		r := live(present)
 		if present != "" && model[present] != nil && r == nil {
@@ -383,11 +402,11 @@ func check(c Case) vk.Verdict {
 		emitted := ""
 		switch c.Source {
 		case "header":
-			emitted = string(resp.Response.Header.Peek(sessName))
+			emitted = string(resp.Header.Peek(sessName))
 		default:
 			ck := fasthttp.AcquireCookie()
 			ck.SetKey(sessName)
-			if resp.Response.Header.Cookie(ck) {
+			if resp.Header.Cookie(ck) {
 				emitted = string(ck.Value())
 				if ck.MaxAge() < 0 || (!ck.Expire().IsZero() && ck.Expire().Before(time.Now()) && !ck.Expire().Equal(fasthttp.CookieExpireUnlimited)) {
 					emitted = "(expired)"
@@ -435,7 +454,7 @@ func check(c Case) vk.Verdict {
 
 func genCase(t *rapid.T) Case {
 	c := Case{API: rapid.SampledFrom([]string{"middleware", "store"}).Draw(t, "api"), Source: rapid.SampledFrom([]string{"cookie", "header", "query"}).Draw(t, "source"),
-		Storage: rapid.SampledFrom([]string{"vk", "memory"}).Draw(t, "storage"), Idle: rapid.SampledFrom([]int{2, 5, 60}).Draw(t, "idle"), Abs: rapid.IntRange(0, 3).Draw(t, "abs") == 0}
+		Storage: rapid.SampledFrom([]string{"vk", "memory"}).Draw(t, "storage"), Idle: rapid.SampledFrom([]int{2, 5, 60}).Draw(t, "idle"), Abs: rapid.IntRange(0, 3).Draw(t, "abs") == 0, Conn: rapid.IntRange(0, 2).Draw(t, "conn") == 0}
 	n := rapid.IntRange(1, 25).Draw(t, "nops")
 	for i := 0; i < n; i++ {
 		switch k := rapid.IntRange(0, 11).Draw(t, "kind"); {
